@@ -1,6 +1,7 @@
 """C16 — L2TP control channel: exactly once, in order, within the window
 (pkg/l2tp/control_channel.go, internal/l2tp/dispatch.go)."""
 import itertools
+import re
 
 ID = "C16"
 HARNESSES = [
@@ -27,7 +28,7 @@ ASSUMPTIONS = ["fewer than 2^15 messages are submitted per direction (exactly-on
 
 
 def route(case):
-    return "disp" if case.startswith(("disp", "sccrq", "full")) else "chan"
+    return "disp" if case.startswith(("disp", "sccrq", "full", "rws")) else "chan"
 
 
 ORIGINS = [0, 0, 1, 0x7ffd, 0x7ffe, 0x7fff, 0x8000, 0x8001, 0xfffc, 0xfffd, 0xfffe, 0xffff]
@@ -209,6 +210,11 @@ def gen_cases(rng, tier, budget):
         cases.append("seqless %d %d" % (rng.randrange(65536), rng.randrange(65536)))
     cases += gen_disp(rng, 150 if quick else 2000)
     cases += gen_full(rng, 150 if quick else 2000)
+    # advertised Receive Window Size through the real establishment path; exhaustive over the small grid
+    for w in ["-", "0", "1", "2", "3", "4", "8", "16", "32"]:
+        cases.append("rws lac %s 0 0" % w)
+        for k, a in [(1, 0), (3, 0), (6, 2), (8, 3), (12, 12), (20, 20), (20, 8)]:
+            cases.append("rws lns %s %d %d" % (w, k, a))
     for ns in [0, 1, 2, 0x7fff, 0x8000, 0xffff]:
         for nr in [0, 1, 0x8000]:
             cases.append("sccrq %d %d" % (ns, nr))
@@ -254,6 +260,14 @@ def monitor(case, line):
         return monitor_disp(case, line)
     if case.startswith("full"):
         return monitor_full(case, line)
+    if case.startswith("rws"):
+        t = case.split()
+        adv = 4 if t[2] == "-" else max(1, int(t[2]))
+        m = re.search(r"infl=(\d+)", line)
+        if m and int(m.group(1)) > adv:
+            return "%s: the peer advertised a Receive Window Size of %s but %s messages are outstanding (unacknowledged)" % (
+                t[1].upper(), "4 (AVP absent)" if t[2] == "-" else adv, m.group(1))
+        return None
     if not case.startswith("pair"):
         return None
     c = parse_pair(case)
@@ -392,6 +406,9 @@ def classify(case, impl, model):
 
 
 def signature(case, impl, models):
+    if case.startswith(("rws", "sccrq")):
+        # establishment path: the channel keeps the hard-coded window of runner.go instead of the advertised one
+        return "peer-rws-ignored" if impl == models.get("defective") else "other:rws"
     d = first_diff(impl, models["repaired"])
     if not d:
         return "none"
